@@ -20,8 +20,14 @@ def gen(rnd):
     start, hist = E.start_cmds(rnd, vi)
     if hist is None and rnd.random() < 0.5:
         hist = [rnd.choice(E.HTEXTS + E.TEXTS) for _ in range(rnd.randrange(1, 3))]
+    if hist is not None and rnd.random() < 0.35:
+        # an entry that ends with a newline: the last line of the buffer is empty, the one before it is not
+        hist = hist + [rnd.choice(["ab\n", "x y\nz\n", "é\n"])]
     cmds = list(start)
     mode = "ins"
+    if hist and hist[-1].endswith("\n") and rnd.random() < 0.8:
+        cmds += [("previous-history",)] + ([("vi-movement-mode",), ("raw", b"k"), ("raw", b"$")] if vi else [("backward-char",), ("end-of-line",)])
+        mode = "cmd" if vi else mode
     for _ in range(rnd.randrange(3, 14)):
         r = rnd.random()
         if not vi:
@@ -91,8 +97,10 @@ def check(rep, tier, seed):
                 fails.append("cursor %d outside [0, %d]" % (cp, n_))
             if w["main"] in ("vi-command", "vi", "vi-move") and w["local"] == "":
                 stats["vi_command_waits"] += 1
-                on_char = cp < n_
-                line_empty = n_ == 0 or (cp == n_ and line[cp - 1] == 10)
+                # on a character of the current line: not past the end, and not on the newline that ends a non-empty line
+                cur_line_empty = n_ == 0 or ((cp == n_ or line[cp] == 10) and (cp == 0 or line[cp - 1] == 10))
+                on_char = cp < n_ and line[cp] != 10
+                line_empty = cur_line_empty
                 if not (on_char or line_empty):
                     fails.append("vi command mode: cursor %d is past the last character of a %d-rune buffer" % (cp, n_))
             sp = w.get("selpos")
